@@ -240,6 +240,10 @@ def gen_coq(tab):
                                                  coq_name(s["prefix"]), coq_name(s["suffix"]), "true" if s["escaped"] else "false"))
     L.append("Definition SITES : list site := [\n%s\n]." % ";\n".join(rows))
     L.append("")
+    L.append("(* every name-keyed lookup `<table>.get/contains/contains_key/get_mut(key)` in emit/** and lower/**: id, table, key derived from escape_keyword? *)")
+    lrows = ["  mk_lookup %s %s %s" % (coq_str(l["id"]), coq_str(l["table"]), "true" if l["escaped"] else "false") for l in tab.get("lookups", [])]
+    L.append("Definition LOOKUPS : list lookup := [\n%s\n]." % ";\n".join(lrows))
+    L.append("")
     L.append("(* `__`-prefixed identifiers written literally inside quote! bodies of the emitter *)")
     L.append("Definition FIXED_TEMPORARIES : list name := Eval vm_compute in\n  %s." % coq_name_list(tab["fixed_temporaries"]))
     return "\n".join(L) + "\n"
@@ -336,6 +340,27 @@ TEMPLATES = {
     "imported_function": dict(src="from zqmod import @N@\n\ndef main() -> None:\n    println(@N@())\n",
                               modules=[["zqmod", "pub def @N@() -> int:\n    return 1\n"]], labels=["imported-item-name", "variable"],
                               item=True, norustc=True, call0=True),
+    # ---- call shapes whose emission depends on a NAME-KEYED lookup of the callee's signature (function registry,
+    # external-function set): keyword arguments out of declaration order, mixed positional+keyword, defaults,
+    # `mut` list/model parameters (need `&mut`), str parameters (owned conversion), nested calls, calls from another
+    # function and from a method. Lower-case names only (an upper-case callee is the capitalised-function class).
+    "function_kwargs": dict(src="def @N@(lo: int, hi: int) -> int:\n    return hi - lo\n\ndef twice(a: int) -> int:\n    return @N@(hi=a, lo=1) + @N@(1, hi=a)\n\nclass P:\n    v: int\n\n    def use_it(self) -> int:\n        return @N@(hi=self.v, lo=2)\n\ndef main() -> None:\n    println(@N@(1, 10))\n    println(@N@(lo=1, hi=10))\n    println(@N@(hi=10, lo=1))\n    println(@N@(@N@(hi=5, lo=1), hi=20))\n    println(twice(7))\n    p = P(v=9)\n    println(p.use_it())\n",
+                            labels=["function-name", "variable"], item=True, lower_only=True),
+    "function_mut_param": dict(src="def @N@(mut xs: List[int], v: int) -> None:\n    xs.append(v)\n\ndef main() -> None:\n    mut ys: List[int] = [1]\n    @N@(ys, 2)\n    @N@(v=3, xs=ys)\n    println(len(ys))\n",
+                               labels=["function-name", "variable"], item=True, lower_only=True),
+    "function_str_param": dict(src="def @N@(s: str, n: int) -> str:\n    return s\n\ndef main() -> None:\n    t = \"abc\"\n    println(@N@(\"lit\", 1))\n    println(@N@(t, 2))\n    println(@N@(n=3, s=t))\n",
+                               labels=["function-name", "variable"], item=True, lower_only=True),
+    "function_default_arg": dict(src="def @N@(a: int, b: int = 5) -> int:\n    return a - b\n\ndef main() -> None:\n    println(@N@(10))\n    println(@N@(10, 2))\n    println(@N@(b=1, a=10))\n",
+                                 labels=["function-name", "variable"], item=True, lower_only=True, norustc=True),  # defaults are not filled in by the emitter (rustc E0061 for every name)
+    "function_model_param": dict(src="class P:\n    v: int\n\ndef @N@(mut p: P, d: int) -> None:\n    p.v = p.v + d\n\ndef main() -> None:\n    mut q = P(v=1)\n    @N@(q, 2)\n    @N@(d=3, p=q)\n    println(q.v)\n",
+                                 labels=["function-name", "variable"], item=True, lower_only=True),
+    "method_kwargs": dict(src="class P:\n    v: int\n\n    def @N@(self, lo: int, hi: int) -> int:\n        return hi - lo + self.v\n\ndef main() -> None:\n    p = P(v=1)\n    println(p.@N@(1, 10))\n    println(p.@N@(hi=10, lo=1))\n    println(p.@N@(1, hi=10))\n",
+                          labels=["method-name", "method-call"], lower_only=True),
+    "static_method_kwargs": dict(src="class P:\n    v: int\n\n    def @N@(lo: int, hi: int) -> int:\n        return hi - lo\n\ndef main() -> None:\n    println(P.@N@(1, 10))\n    println(P.@N@(hi=10, lo=1))\n",
+                                 labels=["method-name", "associated-function-call"], lower_only=True),
+    "imported_function_kwargs": dict(src="from zqmod import @N@\n\ndef main() -> None:\n    println(@N@(1, 10))\n    println(@N@(hi=10, lo=1))\n    println(@N@(1, hi=10))\n",
+                                     modules=[["zqmod", "pub def @N@(lo: int, hi: int) -> int:\n    return hi - lo\n"]],
+                                     labels=["imported-item-name", "variable"], item=True, norustc=True, lower_only=True),
 }
 
 
@@ -564,6 +589,8 @@ def run(chk):
         res["tie_ok"] = False
         res["broken"].append({"what": "extractor", "message": tab["errors"][:10]})
 
+    escaped_lookups = [l["id"] for l in tab.get("lookups", []) if l["escaped"]]
+    chk.coverage["lookups"] = {"total": len(tab.get("lookups", [])), "keyed_by_escaped_name": escaped_lookups}
     sites = tab["sites"]
     label_sites = {}
     for k, s in enumerate(sites):
@@ -659,11 +686,14 @@ def run(chk):
     # ---- cases: every position x every name, plus the neutral program of each case class
     positions = sorted(TEMPLATES)
     core_positions = ["variable", "fstring_variable", "sorted_variable", "parameter", "function", "field", "method", "class_name",
-                      "class_with_method_name", "enum_variant", "const", "match_binding", "import_alias"]
+                      "class_with_method_name", "enum_variant", "const", "match_binding", "import_alias",
+                      "function_kwargs", "function_mut_param", "method_kwargs"]
     full = set(kw_names) | set(not_rawable) | set(NEUTRAL.values()) | set(rnd[:4])
     t_emit = time.time()
 
     def wanted(pos, n):
+        if TEMPLATES[pos].get("lower_only") and not (n[0].islower() or n in NEUTRAL.values()):
+            return False
         return chk.tier == "thorough" or n in full or pos in core_positions
 
     cases = []
@@ -883,6 +913,8 @@ def run(chk):
             chk.sample("%s %s -> %s %s" % (pos, n, rr["stage"], rr["msg"][:80]))
 
     for f in fails[:25]:
+        if escaped_lookups:
+            f["lookups_keyed_by_escaped_name"] = escaped_lookups
         chk.violation("failing-input", f)
     if not fails:
         if corr_bad:
